@@ -7,7 +7,6 @@ import (
 	"fmt"
 
 	"cuelabs.dev/go/oci/ociregistry"
-	"cuelabs.dev/go/oci/ociregistry/ocifilter"
 	"cuelabs.dev/go/oci/ociregistry/ocimem"
 
 	"verif/vcore"
@@ -67,10 +66,12 @@ func c13SiblingText(reg ociregistry.Interface, u *universe, prefix string) strin
 }
 
 func newSubSys(r *vcore.Run, u *universe, cfg alphabetConfig, prefix string) *regSys {
+	raw := prefix
+	prefix = c13Eff(prefix)
 	backend := c13Backend(prefix)
 	before := c13SiblingText(backend, u, prefix)
 	s := &regSys{r: r, prop: "C13", mode: "sub-" + prefix, u: u, cfg: cfg, static: u.staticOps(cfg),
-		reg: ocifilter.Sub(backend, prefix), raw: backend,
+		reg: c13Sub(backend, raw), raw: backend,
 		model: NewModel(false), queries: sweepQueries(u, append(append([]string(nil), u.Repos...), "q")), ctx: context.Background()}
 	s.postCheck = func(s *regSys, op Op, out Outcome) {
 		if after := c13SiblingText(backend, u, prefix); after != before {
